@@ -53,7 +53,10 @@ class CallsMixin:
                 if pat in callee:
                     k = 'calls:' + pat
                     st.ghost[k] = st.ghost.get(k, z3.IntVal(0)) + 1
-        return self.call_static(st, fr, b, i, ins, callee, binds, args, inline_ok)
+        r = self.call_static(st, fr, b, i, ins, callee, binds, args, inline_ok)
+        if r is None:
+            self.callsite_assumptions(st, fr, ins, callee, args)
+        return r
 
     def set_result(self, st, ins, vals):
         t = ins.get('type')
@@ -181,6 +184,34 @@ class CallsMixin:
             except SpecError as ex:
                 cx.stale('%s.call[%s].ensures[%s]' % (me, short, c.label), str(ex))
         return vals
+
+    def callsite_assumptions(self, st, fr, ins, callee, args):
+        """`//@ call <pattern> ensures <expr>`: what the function under contract takes a callee's
+        result to mean (trusted, listed in the evidence); evaluated after the call with result,
+        result0.. and arg0.. bound"""
+        cx = self.cx
+        if fr is not cx.top or not getattr(cx.contract, 'call_ensures', None):
+            return
+        res = st.regs.get(ins.get('name')) if ins.get('name') else None
+        for (pat, c) in cx.contract.call_ensures:
+            if pat not in callee:
+                continue
+            env = {'arg%d' % k: a for k, a in enumerate(args)}
+            if res is not None:
+                env['result'] = res
+                d = self.types.get(res.t)
+                if d.get('k') == 'tuple':
+                    for k, el in enumerate(d.get('elems') or []):
+                        try:
+                            env['result%d' % k] = res.sub(('#%d' % k,), el['type'])
+                        except Exception:
+                            pass
+            ev = cx.evaluator(st, fr, old=cx.entry_state.with_sink(st), extra=env)
+            try:
+                st.assume(ev.bool(c.expr))
+                cx.trusted_clauses.add('call-site assumption in %s about %s: %s' % (cx.short, pat, c.text))
+            except SpecError as ex:
+                cx.stale('%s.callsite[%s].ensures[%s]' % (cx.short, pat, c.label), str(ex))
 
     def callsite_obligations(self, st, fr, ins, callee, args):
         """`//@ call <pattern> requires <expr>` clauses of the function under contract: the
@@ -423,10 +454,7 @@ class CallsMixin:
         st.heap.havoc(ev, st.alloc0, opaque=True)
         for loc, v in saved:
             st.store(loc, v)
-        for (txt, l, v) in stable:
-            if l is not None:
-                st.store(l, v)
-                cx.assumed_used.add('frame-stable over opaque calls (assumed): ' + txt)
+        self.restore_stable(st, stable)
         self.havoc_boxed_pointees(st, args)
         st.callcount += 1
         vals = []
@@ -453,6 +481,18 @@ class CallsMixin:
                     st.store(l, nv)
                     st.load(l)
 
+    def restore_stable(self, st, stable):
+        cx = self.cx
+        for (txt, l, v) in stable:
+            if isinstance(l, tuple) and l and l[0] == 'rows':
+                for (key, srt, row) in l[2]:
+                    cur = st.heap.get(key, st.heap.sorts.get(key, srt), st.alloc0)
+                    st.heap.set(key, z3.Store(cur, l[1], row))
+                cx.assumed_used.add('frame-stable over opaque calls (assumed): ' + txt)
+            elif l is not None:
+                st.store(l, v)
+                cx.assumed_used.add('frame-stable over opaque calls (assumed): ' + txt)
+
     def stable_snapshot(self, st, fr):
         """(text, loc, value) of the locations declared frame-stable, and of the cells of the
         variables captured by a closure under contract (locals of the enclosing function)"""
@@ -466,6 +506,17 @@ class CallsMixin:
             ev0 = cx.evaluator(st, fr)
             for txt in split_top(cx.contract.opts['stable']):
                 try:
+                    if txt.strip().endswith('[*]'):
+                        # every element of a slice: the rows of its backing array
+                        sv = ev0.deref_auto(ev0.ev(exprparse.parse(txt.strip()[:-3])))
+                        if self.types.kind(sv.t) != 'slice' or sv.arr is not None:
+                            continue
+                        el = st.elem_loc(sv, z3.IntVal(0))
+                        rows = []
+                        for (q, srt, role, key, term) in st.loc_regions(el):
+                            rows.append((key, srt, z3.Select(term, sv.lv[('b',)])))
+                        stable.append((txt, ('rows', sv.lv[('b',)], rows), None))
+                        continue
                     l = ev0.loc(exprparse.parse(txt))
                     stable.append((txt, l, st.load(l, facts=False)))
                 except SpecError:
